@@ -1038,3 +1038,70 @@ pub fn truth_program(kind: usize, value: usize, as_variable: bool) -> Prog {
     main.push(b.print(vec![st("end"), var("N%")]));
     Prog { main, ..Default::default() }
 }
+
+// ---------------------------------------------------------------------------
+// Axis R: binary operators whose operands are not plain variables or literals: a member of an array-of-records element
+// whose subscript is an expression or a FUNCTION call, an array element with an expression subscript, a FUNCTION call
+// on such an element — on the left, on the right, on both sides, with a sub-expression as the other operand.
+// ---------------------------------------------------------------------------
+
+pub fn rich_operand_programs() -> Vec<(Prog, String)> {
+    let types = vec![TypeDef { name: "RT".into(), fields: vec![("V".into(), DeclTy::Scalar(Ty::Int)), ("W".into(), DeclTy::Scalar(Ty::Int))] }];
+    let member = |sub: Expr, f: &str| Expr::Field(Box::new(Expr::Index("T".into(), vec![sub])), f.into());
+    let i = || var("I%");
+    let lefts: Vec<(&str, Expr, i64)> = vec![
+        ("T(I% + 2).V", member(bin(BinOp::Add, i(), num(2)), "V"), 12),
+        ("T(I% * 2).W", member(bin(BinOp::Mul, i(), num(2)), "W"), 3),
+        ("T(Idf%(I%)).V", member(call("Idf%", vec![i()]), "V"), 300),
+        ("AR%(I% + 1)", Expr::Index("AR%".into(), vec![bin(BinOp::Add, i(), num(1))]), 9),
+        ("T(I%).V", member(i(), "V"), 300),
+        ("Idf%(AR%(I% * 3))", call("Idf%", vec![Expr::Index("AR%".into(), vec![bin(BinOp::Mul, i(), num(3))])]), 5),
+    ];
+    let rights: Vec<(&str, Expr, i64)> = vec![
+        ("10 * 2", bin(BinOp::Mul, num(10), num(2)), 20),
+        ("7", num(7), 7),
+        ("J%", var("J%"), 3),
+        ("T(I% - 1).W", member(bin(BinOp::Sub, i(), num(1)), "W"), 2),
+        ("AR%(I% + 4)", Expr::Index("AR%".into(), vec![bin(BinOp::Add, i(), num(4))]), 5),
+        ("Idf%(6)", call("Idf%", vec![num(6)]), 6),
+    ];
+    let ops = [BinOp::Add, BinOp::Sub, BinOp::Mul, BinOp::Div, BinOp::Mod, BinOp::Lt, BinOp::Le, BinOp::Eq, BinOp::Ge, BinOp::Gt, BinOp::Ne, BinOp::And, BinOp::Or];
+    let mut out = vec![];
+    for (ll, le, lv) in &lefts {
+        for (rl, re, rv) in &rights {
+            for swapped in [false, true] {
+                let mut b = B::new();
+                let body = vec![b.assign(var("Idf%"), var("X%"))];
+                let id = b.id();
+                let subs = vec![SubDef { id, name: "Idf%".into(), is_function: true, params: vec![Param { name: "X%".into(), ty: None, is_array: false }], body, is_static: false }];
+                let mut main = vec![
+                    b.s(K::Dim { shared: false, redim: false, vars: vec![DimVar { name: "T".into(), ty: Some(DeclTy::Rec("RT".into())), dims: vec![(Some(num(1)), num(4))] }, DimVar { name: "AR%".into(), ty: None, dims: vec![(Some(num(1)), num(8))] }] }),
+                    b.assign(var("I%"), num(2)),
+                    b.assign(var("J%"), num(3)),
+                ];
+                for (k, (v, w)) in [(7, 2), (300, 4), (55, 66), (12, 3)].iter().enumerate() {
+                    main.push(b.assign(member(num(k as i64 + 1), "V"), num(*v)));
+                    main.push(b.assign(member(num(k as i64 + 1), "W"), num(*w)));
+                }
+                for k in 1..=8 {
+                    main.push(b.assign(Expr::Index("AR%".into(), vec![num(k)]), num([1, 2, 9, 4, 6, 5, 7, 8][k as usize - 1])));
+                }
+                let (a, av, c, cv) = if swapped { (re.clone(), *rv, le.clone(), *lv) } else { (le.clone(), *lv, re.clone(), *rv) };
+                for op in ops {
+                    // a quotient that is not a dyadic fraction is outside the reference's exact domain
+                    if op == BinOp::Div && (av * 16) % cv != 0 {
+                        continue;
+                    }
+                    // `x / 10 * 2` groups to the left: the product on the right of a division is written in parentheses
+                    let c = if op == BinOp::Div && matches!(c, Expr::Bin(..)) { Expr::Paren(Box::new(c.clone())) } else { c.clone() };
+                    main.push(b.print(vec![bin(op, a.clone(), c.clone())]));
+                    // and once more with the whole expression stored
+                    main.push(b.assign(var("S!"), bin(op, a.clone(), c.clone())));
+                    main.push(b.print(vec![var("S!")]));
+                }
+                out.push((Prog { types: types.clone(), main, subs, declare: true, ..Default::default() }, format!("{} <op> {}", if swapped { rl } else { ll }, if swapped { ll } else { rl })));
+            }
+        }
+    }
+    out
+}
